@@ -389,13 +389,16 @@ def compose_eval_rule(ctx):
     invt = p.find_class("InverseTransform", "nflows.transforms.base")
     x, cx = ("x",), ("ctx",)
     ks = range(1, 8) if getattr(ctx, "tier", "quick") == "thorough" else (1, 2, 3, 4)
-    for k in ks:
+    configs = [(k, list(range(1, k + 1))) for k in ks] + [(3, [1, 2, 1]), (4, [1, 2, 2, 1]), (2, [1, 1])]  # the same instance used twice
+    for k, names in configs:
         methods = {nm: fi.node for nm, fi in comp.methods.items()}
         init = comp.methods.get("__init__")
         obj = Obj({}, methods)
         pe = PEval(obj)
+        stages_by_name = {}
+        parts = [stages_by_name.setdefault(i, Stage("T%d" % i)) for i in names]
         try:
-            pe.call_method(init.node, [[Stage("T%d" % i) for i in range(1, k + 1)]])
+            pe.call_method(init.node, [parts])
         except (PUndecided, PRaises) as ex:
             res.undecide("CompositeTransform.__init__ with %d parts" % k, str(ex))
             continue
@@ -403,7 +406,7 @@ def compose_eval_rule(ctx):
             fi = comp.methods.get(direction)
             if fi is None:
                 raise AnalysisIncomplete("CompositeTransform.%s missing" % direction)
-            order = list(range(1, k + 1)) if direction == "forward" else list(range(k, 0, -1))
+            order = list(names) if direction == "forward" else list(reversed(names))
             d = "fwd" if direction == "forward" else "inv"
             want = x
             lds = []
@@ -425,7 +428,7 @@ def compose_eval_rule(ctx):
                     break
                 if r[0].term != want or r[1].term != want_ld:
                     what = "outputs `%s` (the composition is `%s`)" % (show(r[0].term)[:110], show(want)[:110]) if r[0].term != want else "log-det `%s` (the composition gives `%s`)" % (show(r[1].term)[:110], show(want_ld)[:110])
-                    res.fail(Finding("CMP-EVAL", fi.module, fi.qualname, fi.node, "CompositeTransform.%s with %d part(s), call %d on the same object: %s" % (direction, k, call_no, what), construct="%s with %d parts" % (direction, k)))
+                    res.fail(Finding("CMP-EVAL", fi.module, fi.qualname, fi.node, "CompositeTransform.%s with the parts %s%s, call %d on the same object: %s" % (direction, ["T%d" % i for i in names], " (an instance used more than once)" if len(set(names)) < len(names) else "", call_no, what), construct="%s with %d parts%s" % (direction, k, " (repeated instance)" if len(set(names)) < len(names) else "")))
                     break
             else:
                 res.ok("CompositeTransform.%s with %d part(s) = %s" % (direction, k, show(want)[:80]))
